@@ -33,6 +33,16 @@ structure rules_WeekMonth where
   Month : Int
 deriving DecidableEq, Repr
 
+structure hijri_MonthData where
+  Version : List Int
+  StartDate : List Int
+  StartJd : Int
+  MonthLen : List (List Int)
+  ExpJd : Int
+  MonthLenByYm : List (Int × Int)
+  EndJd : Int
+deriving DecidableEq, Repr
+
 def julian_monthLen : List Int := [31, 28, 31, 30, 31, 30, 31, 31, 30, 31, 30, 31]
 def julian_monthLenSum : List Int := [0, 31, 59, 90, 120, 151, 181, 212, 243, 273, 304, 334, 365]
 def jalali_monthLen : List Int := [31, 31, 31, 31, 31, 31, 30, 30, 30, 30, 30, 30]
@@ -829,6 +839,64 @@ def hijri_GetMonthLen (year : Int) (month : Int) : Option Int := do
     else
       pure 29
 
+/-- cal_types/hijri/hijri.go:133 -/
+def hijri_MonthData_GetDateFromJd (mdata : hijri_MonthData) (jd : Int) : Option (Option GoSem.Date) := do
+  if (!((decide ((mdata).EndJd ≥ jd)) && (decide (jd ≥ (mdata).StartJd)))) then
+    pure none
+  else
+    let y ← (GoSem.idx (mdata).StartDate 0)
+    let m ← (GoSem.idx (mdata).StartDate 1)
+    let d ← (GoSem.idx (mdata).StartDate 2)
+    let ym := (((y * 12) + m) - 1)
+    let startJd := (mdata).StartJd
+    let _r1 ← GoSem.whileB (ρ := (Option GoSem.Date)) GoSem.fuel
+      (fun (jd, d, ym) => do pure (decide (jd > startJd)))
+      (fun (jd, d, ym) => do
+        let monthLen := (GoSem.mapGet (mdata).MonthLenByYm ym)
+        let jdm0 := (jd - monthLen)
+        if (decide (jdm0 ≤ (startJd - d))) then
+          let d := ((d + jd) - startJd)
+          pure (GoSem.Flow.ret (Sum.inr (jd, d, ym)))
+        else
+          if ((decide ((startJd - d) < jdm0)) && (decide (jdm0 ≤ startJd))) then
+            let ym := (ym + 1)
+            let d := (((d + jd) - startJd) - monthLen)
+            pure (GoSem.Flow.ret (Sum.inr (jd, d, ym)))
+          else
+            let ym := (ym + 1)
+            let jd := (jd - monthLen)
+            pure (GoSem.Flow.next (jd, d, ym))
+      )
+      (jd, d, ym)
+    match _r1 with
+    | GoSem.Flow.ret _v => pure _v
+    | GoSem.Flow.next (jd, d, ym) =>
+      let (year, mm) ← (utils_Divmod ym 12)
+      pure (some (← (SrcExt.lib_NewDate year (GoSem.u8 (mm + 1)) (GoSem.u8 d))))
+
+/-- cal_types/hijri/hijri.go:169 -/
+def hijri_MonthData_GetJdFromDate (mdata : hijri_MonthData) (date : GoSem.Date) : Option (Int × Bool) := do
+  let year := (date).Year
+  let ym := (((year * 12) + (date).Month) - 1)
+  let (_u1, ok) := GoSem.mapGet2 (mdata).MonthLenByYm (ym - 1)
+  if (!ok) then
+    pure (0, false)
+  else
+    let ym0 := ((((← (GoSem.idx (mdata).StartDate 0)) * 12) + (← (GoSem.idx (mdata).StartDate 1))) - 1)
+    let jd := (mdata).StartJd
+    let _r2 ← GoSem.forCount (ρ := Empty) (fun jd ymi => do
+        let (plus, ok_1) := GoSem.mapGet2 (mdata).MonthLenByYm ymi
+        if (!ok_1) then
+          none
+        else
+          let jd := (jd + plus)
+          pure (GoSem.Flow.next jd)
+      ) ym0 ym jd
+    match _r2 with
+    | GoSem.Flow.ret _v => nomatch _v
+    | GoSem.Flow.next jd =>
+      pure (((jd + (date).Day) - 1), true)
+
 /-! ### overflow-checked copies: the same code with every int / int64 `+ - *`, negation and non-constant `/` passed
     through GoSem.chk64 (`none` when the exact result does not fit in 64 bits) -/
 
@@ -1621,7 +1689,65 @@ def hijri_GetMonthLen_chk (year : Int) (month : Int) : Option Int := do
     else
       pure 29
 
+/-- cal_types/hijri/hijri.go:133 -/
+def hijri_MonthData_GetDateFromJd_chk (mdata : hijri_MonthData) (jd : Int) : Option (Option GoSem.Date) := do
+  if (!((decide ((mdata).EndJd ≥ jd)) && (decide (jd ≥ (mdata).StartJd)))) then
+    pure none
+  else
+    let y ← (GoSem.idx (mdata).StartDate 0)
+    let m ← (GoSem.idx (mdata).StartDate 1)
+    let d ← (GoSem.idx (mdata).StartDate 2)
+    let ym ← (GoSem.chk64 ((← (GoSem.chk64 ((← (GoSem.chk64 (y * 12))) + m))) - 1))
+    let startJd := (mdata).StartJd
+    let _r1 ← GoSem.whileB (ρ := (Option GoSem.Date)) GoSem.fuel
+      (fun (jd, d, ym) => do pure (decide (jd > startJd)))
+      (fun (jd, d, ym) => do
+        let monthLen := (GoSem.mapGet (mdata).MonthLenByYm ym)
+        let jdm0 ← (GoSem.chk64 (jd - monthLen))
+        if (decide (jdm0 ≤ (← (GoSem.chk64 (startJd - d))))) then
+          let d ← (GoSem.chk64 ((← (GoSem.chk64 (d + jd))) - startJd))
+          pure (GoSem.Flow.ret (Sum.inr (jd, d, ym)))
+        else
+          if ((decide ((← (GoSem.chk64 (startJd - d))) < jdm0)) && (decide (jdm0 ≤ startJd))) then
+            let ym ← (GoSem.chk64 (ym + 1))
+            let d ← (GoSem.chk64 ((← (GoSem.chk64 ((← (GoSem.chk64 (d + jd))) - startJd))) - monthLen))
+            pure (GoSem.Flow.ret (Sum.inr (jd, d, ym)))
+          else
+            let ym ← (GoSem.chk64 (ym + 1))
+            let jd ← (GoSem.chk64 (jd - monthLen))
+            pure (GoSem.Flow.next (jd, d, ym))
+      )
+      (jd, d, ym)
+    match _r1 with
+    | GoSem.Flow.ret _v => pure _v
+    | GoSem.Flow.next (jd, d, ym) =>
+      let (year, mm) ← (utils_Divmod_chk ym 12)
+      pure (some (← (SrcExt.lib_NewDate year (GoSem.u8 (← (GoSem.chk64 (mm + 1)))) (GoSem.u8 d))))
+
+/-- cal_types/hijri/hijri.go:169 -/
+def hijri_MonthData_GetJdFromDate_chk (mdata : hijri_MonthData) (date : GoSem.Date) : Option (Int × Bool) := do
+  let year := (date).Year
+  let ym ← (GoSem.chk64 ((← (GoSem.chk64 ((← (GoSem.chk64 (year * 12))) + (date).Month))) - 1))
+  let (_u1, ok) := GoSem.mapGet2 (mdata).MonthLenByYm (← (GoSem.chk64 (ym - 1)))
+  if (!ok) then
+    pure (0, false)
+  else
+    let ym0 ← (GoSem.chk64 ((← (GoSem.chk64 ((← (GoSem.chk64 ((← (GoSem.idx (mdata).StartDate 0)) * 12))) + (← (GoSem.idx (mdata).StartDate 1))))) - 1))
+    let jd := (mdata).StartJd
+    let _r2 ← GoSem.forCount (ρ := Empty) (fun jd ymi => do
+        let (plus, ok_1) := GoSem.mapGet2 (mdata).MonthLenByYm ymi
+        if (!ok_1) then
+          none
+        else
+          let jd ← (GoSem.chk64 (jd + plus))
+          pure (GoSem.Flow.next jd)
+      ) ym0 ym jd
+    match _r2 with
+    | GoSem.Flow.ret _v => nomatch _v
+    | GoSem.Flow.next jd =>
+      pure ((← (GoSem.chk64 ((← (GoSem.chk64 (jd + (date).Day))) - 1))), true)
+
 /-- the functions translated on this run -/
-def translated : List String := ["utils_Mod", "utils_Div", "utils_Divmod", "utils_IntMin", "utils_GetHmsBySeconds", "utils_MonthListIsValid", "utils_DayListIsValid", "utils_WeekDayListIsValid", "utils_bisectLeftRange", "utils_BisectLeft", "lib_GetTotalSeconds", "lib_GetFloatHour", "lib_FloatHourToHMS", "lib_toUint8", "lib_HMS_IsValid", "lib_Date_IsValid", "interval_Less", "interval_GetPointList", "interval_GetIntervalList", "interval_Normalize", "interval_Humanize", "interval_Extract", "interval_IntervalListByNumList", "interval_intersectionOfSomeIntervalLists_endPoint", "interval_IntersectionOfSomeIntervalLists", "interval_Intersection", "stack_Push", "stack_Pop", "rules_WeekMonth_IsValid", "julian_IsLeap", "julian_getYearDays", "julian_getMonthDayFromYdays", "julian_ToJd", "julian_JdTo", "julian_GetMonthLen", "jalali_IsLeap", "jalali_getMonthDayFromYdays", "jalali_ToJd", "jalali_JdTo", "jalali_GetMonthLen", "ethiopian_IsLeap", "ethiopian_ToJd", "ethiopian_JdTo", "ethiopian_GetMonthLen", "gprol_IsLeap", "gprol_ToJd", "gprol_JdTo", "gprol_GetMonthLen", "indian_IsLeap", "indian_ToJd", "indian_JdTo", "indian_GetMonthLen", "hijri_IsLeap", "hijri_ToJd", "hijri_JdTo", "hijri_GetMonthLen"]
+def translated : List String := ["utils_Mod", "utils_Div", "utils_Divmod", "utils_IntMin", "utils_GetHmsBySeconds", "utils_MonthListIsValid", "utils_DayListIsValid", "utils_WeekDayListIsValid", "utils_bisectLeftRange", "utils_BisectLeft", "lib_GetTotalSeconds", "lib_GetFloatHour", "lib_FloatHourToHMS", "lib_toUint8", "lib_HMS_IsValid", "lib_Date_IsValid", "interval_Less", "interval_GetPointList", "interval_GetIntervalList", "interval_Normalize", "interval_Humanize", "interval_Extract", "interval_IntervalListByNumList", "interval_intersectionOfSomeIntervalLists_endPoint", "interval_IntersectionOfSomeIntervalLists", "interval_Intersection", "stack_Push", "stack_Pop", "rules_WeekMonth_IsValid", "julian_IsLeap", "julian_getYearDays", "julian_getMonthDayFromYdays", "julian_ToJd", "julian_JdTo", "julian_GetMonthLen", "jalali_IsLeap", "jalali_getMonthDayFromYdays", "jalali_ToJd", "jalali_JdTo", "jalali_GetMonthLen", "ethiopian_IsLeap", "ethiopian_ToJd", "ethiopian_JdTo", "ethiopian_GetMonthLen", "gprol_IsLeap", "gprol_ToJd", "gprol_JdTo", "gprol_GetMonthLen", "indian_IsLeap", "indian_ToJd", "indian_JdTo", "indian_GetMonthLen", "hijri_IsLeap", "hijri_ToJd", "hijri_JdTo", "hijri_GetMonthLen", "hijri_MonthData_GetDateFromJd", "hijri_MonthData_GetJdFromDate"]
 
 end Starcal.Gen.Src
